@@ -17,7 +17,7 @@ PINNED_TEXT = [
 
 def pinned_cases(tier, per_dialect_quick=4, per_dialect_thorough=30):
     n = per_dialect_quick if tier == "quick" else per_dialect_thorough
-    for c in gens.corpus_slice(n, maxsize=800 if tier == "quick" else 1500):
+    for c in (gens.corpus_slice(n, maxsize=800 if tier == "quick" else 1500) if n else ()):
         c["templater"] = "raw"
         yield c
     for i, t in enumerate(PINNED_TEXT):
